@@ -177,7 +177,9 @@ def run(tier, seed, open_findings):
                     fails.append(dict(case=dict(mode=mode, mechanism='nested-hint', spelling=sp, location=loc.replace(root, '<root>'), source_kind=sk),
                                       observed=dict(outcome=outcome, fetched=[(k, p_.replace(root, '<root>')) for k, p_ in viol]), required='no fetch outside the allowed class; only library exceptions'))
         # the hint of an inner element names a namespace that the META-SCHEMA owns: evaluated in a worker process (a failure extends the class-level meta-schema of the process)
-        xn, xf = pmap(eval_xmlns_hint, [0], chunk=1)[0]; n += xn; fails.extend(xf)
+        import multiprocessing as mp
+        with mp.get_context('fork').Pool(1) as pool: xn, xf = pool.apply(eval_xmlns_hint, (0,))
+        n += xn; fails.extend(xf)
         # document-level API: the schema is built by the API itself from the instance's location hint, with the caller's allow mode
         hint_doc = os.path.join(base, 'hinted.xml')
         APIS = {'is_valid': lambda d, **kw: xmlschema.is_valid(d, **kw), 'iter_errors': lambda d, **kw: list(xmlschema.iter_errors(d, **kw)),
